@@ -192,6 +192,7 @@ struct member {
 	struct type *type;
 	enum typequal qual;
 	unsigned long long offset;
+	bool bitfield;
 	struct bitfield bits;
 	struct member *next;
 };
